@@ -2,10 +2,10 @@
 import itertools
 
 PROP = "C18"
-GEN = []
+GEN = ["Fallback"]
 VO = ["Properties/C18.vo", "Extract/D_C18.vo"]
 MODULE = "Properties.C18"
-THEOREMS = ["c18_reads", "c18_writes"]
+THEOREMS = ["c18_reads", "c18_writes", "c18_stateless"]
 DRIVER = "D_C18"
 TECHNIQUE = ("Coq proof by induction over the cache list of a hand-written Gallina model of fallback.py (any number of "
              "caches, any state); model tied to the code by an exhaustive extracted-model/implementation differential run")
@@ -161,7 +161,33 @@ def search(ctx):
         if why:
             found.append({"clause": why, "input": {"method": meth, "args": repr(args), "cache_answers": repr(answers)},
                           "observed": {"result": repr(r), "log": repr(log)}, "size": len(answers), "case": repr((meth, args, answers))})
-    ctx.search_summary = {"runs_checked_against_clauses": len(cases)}
+    # histories on ONE FallbackClient: a read answered by a fallback cache, then each mutating operation on the same key - what was
+    # read, and from where, changes nothing about where writes go
+    from pymemcache.fallback import FallbackClient
+    nhist = 0
+    for n in (2, 3, 4):
+        for hit in range(n):
+            for read in READS:
+                hitval = {"get": b"v", "gets": (b"v", b"49"), "get_many": {"k": b"v"}, "gets_many": {"k": (b"v", b"49")}}[read]
+                for meth, args in WRITE_ARGS.items():
+                    nhist += 1
+                    log = []
+                    miss = None if read in ("get", "gets") else {}
+                    fc = FallbackClient([Cache(i, log, hitval if i == hit else miss) for i in range(n)])
+                    getattr(fc, read)("k" if read in ("get", "gets") else ["k"])
+                    del log[:]
+                    for c in fc.caches:
+                        c.answer = True
+                    try:
+                        getattr(fc, meth)(*args)
+                    except Exception as e:  # noqa
+                        log.append(("raised", type(e).__name__))
+                    if log != [(0, METHS.index(meth), list(args))]:
+                        found.append({"clause": "after %s('k') was answered by cache %d of %d, %s%r was logged as %r: a mutating operation is exactly one call on the first "
+                                                "cache with the caller's arguments" % (read, hit, n, meth, args, log),
+                                      "input": {"caches": n, "read": read, "answered_by": hit, "then": meth, "args": repr(args)}, "observed": repr(log), "size": n,
+                                      "case": None, "history_case": repr((n, hit, read, meth))})
+    ctx.search_summary = {"runs_checked_against_clauses": len(cases), "read_then_write_histories": nhist}
     found.sort(key=lambda v: v["size"])
     return found[:1]
 
